@@ -42,10 +42,14 @@ func (o *faultOracle) OnWrite(s *Sim, w *Write) {
 	// C06 (c): never two live canary Deployments for one workload
 	if w.Key.GK == gkDeployment && w.Verb == "create" {
 		n := 0
+		var owner string
+		if refs := w.New.GetOwnerReferences(); len(refs) > 0 {
+			owner = string(refs[0].UID)
+		}
 		for _, k := range s.Store.Keys(gkDeployment) {
 			d := s.Store.Peek(k).(*appsv1.Deployment)
-			if d.Labels[canaryDepLabel] == o.sc.Name && d.DeletionTimestamp == nil {
-				n++
+			if d.Labels[canaryDepLabel] == o.sc.Name && d.DeletionTimestamp == nil && len(d.OwnerReferences) > 0 && string(d.OwnerReferences[0].UID) == owner {
+				n++ // canary Deployments of an earlier BatchRelease that wait for the garbage collector do not count
 			}
 		}
 		s.probe("c06.canary-creates")
